@@ -6,6 +6,7 @@ import (
 	"encoding/json"
 	"fmt"
 	realos "os"
+	"runtime"
 	"sort"
 	"strings"
 	"testing"
@@ -32,6 +33,7 @@ type WorkerConfig struct {
 	LogHashes    bool     `json:"log_hashes"`    // emit per-run log hashes (determinism self-test)
 	Profiles     []string `json:"profiles"`      // restrict to these profiles
 	ProfilesFrom string   `json:"profiles_from"` // use the workloads of another property (cross-checks)
+	FirstRun     int      `json:"first_run"`     // run indices start here (a long batch is split into rounds of fresh processes)
 	DumpRun      int      `json:"dump_run"`      // >0: write the plan of run (dump_run-1) as a replay file and exit (used after a worker crash)
 	RaceLog      string   `json:"race_log"`      // GORACE log_path prefix: race reports are attributed per run
 	Calibrate    bool     `json:"calibrate"`     // run one calibration plan and report whether the detector saw the probe
@@ -69,6 +71,8 @@ type WorkerOutput struct {
 	Replayed   *ReplayOutcome    `json:"replayed,omitempty"`
 	Rechecked  int               `json:"rechecked"`
 	Survey     map[string][2]any `json:"survey,omitempty"` // full signature -> (count, first message)
+	Goroutines int               `json:"goroutines_at_end"`
+	HeapMB     int               `json:"heap_mb_at_end"`
 	CalibHit   bool              `json:"calibration_hit"`
 	RaceSeen   int               `json:"race_reports_seen"`
 }
@@ -245,7 +249,7 @@ func RunWorker(t *testing.T, cfg *WorkerConfig) *WorkerOutput {
 	}
 	propSeed := rt.MixS(cfg.Seed, cfg.Property)
 	nondet := ""
-	for i := cfg.Worker; i < cfg.MaxRuns; i += cfg.Workers {
+	for i := cfg.FirstRun + cfg.Worker; i < cfg.MaxRuns; i += cfg.Workers {
 		if cfg.BudgetS > 0 && time.Since(startWall).Seconds() > cfg.BudgetS {
 			break
 		}
@@ -379,6 +383,9 @@ func RunWorker(t *testing.T, cfg *WorkerConfig) *WorkerOutput {
 	if nondet != "" && len(out.Violations) == 0 && out.Infra == "" {
 		out.Infra = nondet
 	}
+	var ms runtime.MemStats
+	runtime.ReadMemStats(&ms)
+	out.Goroutines, out.HeapMB = runtime.NumGoroutine(), int(ms.HeapAlloc>>20)
 	out.Classes = sortedKeys(out.Stats.Classes)
 	out.NonTrivial = sortedKeys(out.Stats.NonTrivial)
 	out.Shapes = len(out.Stats.Shapes)
